@@ -3,7 +3,10 @@ package main
 // props_conc.go — registration of the properties decided by concurrency monitors
 // (E2 controlled schedules, E3 parallel stress) together with their sequential E1 parts.
 
-import "time"
+import (
+	"fmt"
+	"time"
+)
 
 func cfgC06(tier string) e1Cfg {
 	t := baseTxn()
@@ -57,7 +60,9 @@ func init() {
 	{
 		mp := &multiPhase{}
 		mp.add(e2PhaseFor("C09", e2Oracles{merges: true, replica: true}))
-		mp.add(racePlan(40, 800), func(w *W, idx int) { mergeLinRound(w, idx) })
+		mp.add(racePlan(40, 800), func(w *W, idx int) {
+			withWatchdog(w, idx, fmt.Sprintf("E3:merge-linearizability:round%d", idx), 10*time.Minute, func() { mergeLinRound(w, idx) })
+		})
 		mp.add(streamPhaseFor("C09", 4, 40))
 		mp.add(probePhaseFor("C09"))
 		register(&Property{ID: "C09", Level: "exploration",
